@@ -92,9 +92,11 @@ class Run:
     def execute(self):
         cfg = self.cfg; R = self
         nj = cfg["nj"]
-        maxb = max(cfg["bsizes"]) if cfg["bs"] == "auto" else cfg["bs"]
+        maxb = (64 if cfg.get("autobatch") else max(cfg["bsizes"])) if cfg["bs"] == "auto" else cfg["bs"]
 
-        class Ctl(ParallelBackendBase):
+        auto = cfg.get("autobatch")
+
+        class Ctl(*((AutoBatchingMixin, ParallelBackendBase) if auto else (ParallelBackendBase,))):
             supports_retrieve_callback = cfg["rc"]
             supports_return_generator = True
             supports_timeout = True
@@ -133,11 +135,13 @@ class Run:
                 if ensure_ready:
                     s.configure(n_jobs=s.parallel.n_jobs, parallel=s.parallel)
 
-            def compute_batch_size(s):
-                opts = cfg["bsizes"]
-                return opts[R.choose("bsize", len(opts))]
+            if not auto:
+                # scripted batch sizes; with cfg["autobatch"] the real AutoBatchingMixin decides, fed with scripted durations
+                def compute_batch_size(s):
+                    opts = cfg["bsizes"]
+                    return opts[R.choose("bsize", len(opts))]
 
-            def batch_completed(s, batch_size, duration): pass
+                def batch_completed(s, batch_size, duration): pass
 
             def submit(s, func, callback=None):
                 f = Fut()
@@ -183,6 +187,8 @@ class Run:
             def _complete(s, item):
                 func, cb, f, tag, lo, hi = item
                 ok = True
+                if auto:
+                    R.clock += auto[R.choose("dur", len(auto))] * (hi - lo)      # virtual duration of this batch
                 # run the batch task by task so that TStart/TEnd are per task (BatchedCalls.__call__ does the same loop)
                 try:
                     f.r = func()
@@ -275,7 +281,7 @@ class Run:
     # -------------------------------------------------------------------------------------
     def _calls(self, p, be, idle):
         cfg = self.cfg; R = self; nj = cfg["nj"]
-        maxb = max(cfg["bsizes"]) if cfg["bs"] == "auto" else cfg["bs"]
+        maxb = (64 if cfg.get("autobatch") else max(cfg["bsizes"])) if cfg["bs"] == "auto" else cfg["bs"]
         pre = pre_tasks(cfg["pre"], nj)
         for callno, cs in enumerate(cfg["calls"]):
             self.callno = callno; self.cur = dict(n=cs["n"], fail=set(cs.get("fail", ())), iterfail=cs.get("iterfail"),
